@@ -1,24 +1,213 @@
 package sim
 
 import (
+	"context"
+	"sync"
+	"crypto/sha256"
+	"encoding/hex"
+	"encoding/json"
+	"fmt"
+	"os"
+
+	"cosmossdk.io/log"
+
 	abci "github.com/cometbft/cometbft/abci/types"
+
+	db "github.com/cosmos/cosmos-db"
+	"github.com/cosmos/cosmos-sdk/baseapp"
+	simtestutil "github.com/cosmos/cosmos-sdk/testutil/sims"
+
+	appConsumer "github.com/cosmos/interchain-security/v7/app/consumer"
+	appProvider "github.com/cosmos/interchain-security/v7/app/provider"
 )
+
+// BlockDigest holds digests of the parts of one FinalizeBlock response.
+type BlockDigest struct {
+	All     string `json:"all"`
+	AppHash string `json:"app_hash"`
+	ValUpd  string `json:"validator_updates"`
+	TxRes   string `json:"tx_results"`
+	Events  string `json:"events"`
+}
 
 // ChainRecord is the byte-exact input history of one chain plus the digest of every response;
 // the determinism replica (C18) re-executes it on fresh application instances.
 type ChainRecord struct {
 	ChainID        string                 `json:"chain_id"`
 	Kind           string                 `json:"kind"` // provider | consumer
+	Tainted        bool                   `json:"tainted"` // state was written outside ABCI (hostile injection): not replayable
 	Init           []byte                 `json:"init"`
 	InitValidators []abci.ValidatorUpdate `json:"-"`
 	InitDigest     string                 `json:"init_digest"`
 	Reqs           [][]byte               `json:"reqs"`
-	Digests        []string               `json:"digests"`
+	Digests        []BlockDigest          `json:"digests"`
 	Interesting    []bool                 `json:"interesting"`
+}
+
+func sha(bz []byte) string {
+	h := sha256.Sum256(bz)
+	return hex.EncodeToString(h[:])
+}
+
+func digestBlock(res *abci.ResponseFinalizeBlock) BlockDigest {
+	d := BlockDigest{All: DigestResponse(res), AppHash: hex.EncodeToString(res.AppHash)}
+	vu := &abci.ResponseFinalizeBlock{ValidatorUpdates: res.ValidatorUpdates}
+	d.ValUpd = sha(mustMarshal(vu))
+	tr := &abci.ResponseFinalizeBlock{TxResults: res.TxResults}
+	d.TxRes = sha(mustMarshal(tr))
+	ev := &abci.ResponseFinalizeBlock{Events: res.Events}
+	d.Events = sha(mustMarshal(ev))
+	return d
 }
 
 func (r *ChainRecord) add(req *abci.RequestFinalizeBlock, res *abci.ResponseFinalizeBlock) {
 	r.Reqs = append(r.Reqs, mustMarshal(req))
-	r.Digests = append(r.Digests, DigestResponse(res))
-	r.Interesting = append(r.Interesting, len(res.ValidatorUpdates) > 0 || len(req.Txs) > 0)
+	r.Digests = append(r.Digests, digestBlock(res))
+	ibc := false
+	for _, ev := range res.Events {
+		if ev.Type == "send_packet" || ev.Type == "write_acknowledgement" {
+			ibc = true
+		}
+	}
+	for _, tr := range res.TxResults {
+		for _, ev := range tr.Events {
+			if ev.Type == "send_packet" || ev.Type == "write_acknowledgement" || ev.Type == "recv_packet" {
+				ibc = true
+			}
+		}
+	}
+	r.Interesting = append(r.Interesting, len(res.ValidatorUpdates) > 0 || ibc)
+}
+
+// WorldRecord bundles the records of all chains of a world.
+type WorldRecord struct {
+	World  string         `json:"world"`
+	Chains []*ChainRecord `json:"chains"`
+}
+
+func (w *World) WriteRecord(path string) error {
+	wr := WorldRecord{World: w.Name}
+	if w.P != nil && w.P.Rec != nil {
+		wr.Chains = append(wr.Chains, w.P.Rec)
+	}
+	for _, id := range w.ConsOrder {
+		if c := w.Consumers[id]; c != nil && c.Rec != nil {
+			wr.Chains = append(wr.Chains, c.Rec)
+		}
+	}
+	bz, err := json.Marshal(wr)
+	if err != nil {
+		return err
+	}
+	return os.WriteFile(path, bz, 0o644)
+}
+
+// application constructors register global state (codecs, bech32 config); a real process builds one app
+var appCtorMu sync.Mutex
+
+// ReplicaDiff describes the first divergence of a replica.
+type ReplicaDiff struct {
+	Chain  string `json:"chain"`
+	Block  int    `json:"block"` // -1 = InitChain
+	Fields string `json:"fields"`
+}
+
+// ReplayRecord re-executes a chain record on a fresh application instance (no probes, no decorated keepers)
+// and returns the first block whose response differs from the recorded one.
+func ReplayRecord(rec *ChainRecord, withQueries bool) (*ReplicaDiff, int, error) {
+	var app interface {
+		InitChain(*abci.RequestInitChain) (*abci.ResponseInitChain, error)
+		FinalizeBlock(*abci.RequestFinalizeBlock) (*abci.ResponseFinalizeBlock, error)
+		Commit() (*abci.ResponseCommit, error)
+		Query(context.Context, *abci.RequestQuery) (*abci.ResponseQuery, error)
+	}
+	appCtorMu.Lock()
+	switch rec.Kind {
+	case "provider":
+		a := appProvider.New(log.NewNopLogger(), db.NewMemDB(), nil, true, simtestutil.EmptyAppOptions{})
+		baseapp.SetChainID(rec.ChainID)(a.GetBaseApp())
+		app = a
+	case "consumer":
+		a := appConsumer.New(log.NewNopLogger(), db.NewMemDB(), nil, true, simtestutil.EmptyAppOptions{})
+		baseapp.SetChainID(rec.ChainID)(a.GetBaseApp())
+		app = a
+	default:
+		appCtorMu.Unlock()
+		return nil, 0, fmt.Errorf("unknown chain kind %q", rec.Kind)
+	}
+	appCtorMu.Unlock()
+	var init abci.RequestInitChain
+	if err := init.Unmarshal(rec.Init); err != nil {
+		return nil, 0, err
+	}
+	ires, err := app.InitChain(&init)
+	if err != nil {
+		return nil, 0, fmt.Errorf("replica InitChain: %w", err)
+	}
+	if d := sha(mustMarshal(ires)); d != rec.InitDigest {
+		return &ReplicaDiff{Chain: rec.ChainID, Block: -1, Fields: "init-chain-response"}, 0, nil
+	}
+	n := 0
+	// concurrent gRPC queries against committed state, as a real node serves them while executing blocks
+	stop := make(chan struct{})
+	var qwg sync.WaitGroup
+	queries := 0
+	if withQueries {
+		paths := []string{"/interchain_security.ccv.provider.v1.Query/QueryConsumerChains", "/interchain_security.ccv.provider.v1.Query/QueryThrottleState",
+			"/interchain_security.ccv.provider.v1.Query/QueryParams", "/interchain_security.ccv.consumer.v1.Query/QueryParams"}
+		qwg.Add(1)
+		go func() {
+			defer qwg.Done()
+			for {
+				select {
+				case <-stop:
+					return
+				default:
+				}
+				for _, p := range paths {
+					func() {
+						defer func() { _ = recover() }()
+						_, _ = app.Query(context.Background(), &abci.RequestQuery{Path: p})
+					}()
+					queries++
+				}
+			}
+		}()
+	}
+	defer func() {
+		close(stop)
+		qwg.Wait()
+	}()
+	for i, rb := range rec.Reqs {
+		var req abci.RequestFinalizeBlock
+		if err := req.Unmarshal(rb); err != nil {
+			return nil, n, err
+		}
+		res, err := app.FinalizeBlock(&req)
+		if err != nil {
+			return &ReplicaDiff{Chain: rec.ChainID, Block: i, Fields: "finalize-block-error: " + err.Error()}, n, nil
+		}
+		d := digestBlock(res)
+		if d != rec.Digests[i] {
+			f := ""
+			if d.AppHash != rec.Digests[i].AppHash {
+				f += "app_hash "
+			}
+			if d.ValUpd != rec.Digests[i].ValUpd {
+				f += "validator_updates "
+			}
+			if d.TxRes != rec.Digests[i].TxRes {
+				f += "tx_results "
+			}
+			if d.Events != rec.Digests[i].Events {
+				f += "events "
+			}
+			return &ReplicaDiff{Chain: rec.ChainID, Block: i, Fields: f}, n, nil
+		}
+		if _, err := app.Commit(); err != nil {
+			return nil, n, err
+		}
+		n++
+	}
+	return nil, n, nil
 }
